@@ -68,8 +68,18 @@ class TLCResult:
             self.violated = m2.group(1)
         if "Temporal properties were violated" in out and not self.violated:
             self.violated = "<temporal>"
+        if "Postcondition" in out and "violated" in out:
+            self.violated = self.violated or "<postcondition>"
         self.ok = rc == 0
         self.safety_violation = rc in (12, 13) or self.violated is not None
+
+    def mismatches(self):
+        """<<"MISMATCH", class, line, got, want>> prints of a trace spec -> [(class, line, got, want)]"""
+        out = []
+        for m in re.finditer(r'<<"MISMATCH", "([^"]*)", (\d+), (.*)>>$', self.out, re.M):
+            rest = m.group(3)
+            out.append((m.group(1), int(m.group(2)), rest))
+        return out
 
     def coverage_zero(self):
         """action/expression locations with count 0 in a -coverage run (names only)."""
@@ -94,6 +104,7 @@ class Ctx:
         self.traces = 0
         self.evaluations = 0
         self._distinct = set()
+        self.distinct_override = None
         self.samples = []
         self.viol = []          # (key, what, replay_path)
         self.known_hit = {}     # key -> what
@@ -190,7 +201,7 @@ class Ctx:
         if r.rc != 0:
             if r.safety_violation and allow_violation:
                 return r
-            raise MachineryError("TLC %s/%s exit %d:\n%s" % (module, cfg, r.rc, r.out[-6000:]))
+            raise MachineryError("TLC %s/%s exit %d:\n%s" % (module, cfg, r.rc, _tlc_tail(r.out)))
         return r
 
     def tlc_dump_steps(self, module, cfg, var="step", **kw):
@@ -222,16 +233,23 @@ class Ctx:
         return r, out
 
     def tlc_validate_trace(self, module, cfg, trace_path, trace_name="trace.ndjson", timeout=900, dfs=False):
-        """Trace validation: copies the recorded ndjson next to the trace spec and runs TLC
-        -workers 1. Returns (accepted, result, highwater) where highwater is the number of
-        trace lines explained (parsed from the `HW=<n>` print of the trace spec, if any)."""
+        """Trace validation (binding B): copies the recorded ndjson next to the trace spec and
+        runs TLC with -workers 1. Returns (accepted, result, highwater). The trace spec keeps the
+        high-water mark of its trace index in TLC register 1 and its POSTCONDITION prints
+        <<"HW", reached, len>> when the trace was not consumed completely; `highwater` is that
+        index (the first trace line (1-based) no behaviour of the spec explains), or None.
+        MISMATCH prints of deterministic replies are in result.mismatches()."""
         d = self._stage_spec()
         shutil.copy(trace_path, os.path.join(d, trace_name))
         r = self.tlc(module, cfg, workers=1, timeout=timeout, deterministic_queue=dfs, allow_violation=True)
         hw = None
-        m = re.findall(r"HW=(\d+)", r.out)
+        m = re.findall(r'<<"HW", (\d+), (\d+)>>', r.out)
         if m:
-            hw = max(int(x) for x in m)
+            hw = int(m[-1][0])
+        if r.rc != 0 and hw is None and not r.safety_violation:
+            raise MachineryError("TLC %s/%s exit %d:\n%s" % (module, cfg, r.rc, r.out[-6000:]))
+        if r.rc != 0 and hw is None and r.violated is None:
+            raise MachineryError("TLC %s/%s exit %d:\n%s" % (module, cfg, r.rc, r.out[-6000:]))
         return r.rc == 0, r, hw
 
     # ---------------------------------------------------------------- verdicts
@@ -240,7 +258,7 @@ class Ctx:
         self.evaluations += 1
         if nontrivial:
             self._distinct.add(hashlib.sha1(json.dumps(canon, sort_keys=True).encode()).digest()[:10])
-        if sample is not None and len(self.samples) < 5:
+        if sample is not None and nontrivial and len(self.samples) < 5:
             self.samples.append(sample)
 
     def violation(self, key, what, case):
@@ -277,7 +295,7 @@ class Ctx:
             "traces_validated_against_impl": self.traces,
             "samples": self.samples[:5] if self.samples else ["<none>"],
             "evaluations": self.evaluations,
-            "distinct_nontrivial": len(self._distinct),
+            "distinct_nontrivial": self.distinct_override if self.distinct_override is not None else len(self._distinct),
             "rule": self.rule,
             "exhaustive": self.exhaustive,
             "tlc_cmds": self.tlc_cmds,
@@ -310,6 +328,11 @@ class Ctx:
         if not os.environ.get("VERIF_KEEP"):
             shutil.rmtree(self.work, ignore_errors=True)
         return 1 if self.viol else 0
+
+
+def _tlc_tail(out):
+    keep = [l for l in out.splitlines() if not l.startswith(("Parsing file", "Semantic processing"))]
+    return "\n".join(keep)[-5000:]
 
 
 def _parse_steps(path, var):
